@@ -16,6 +16,7 @@ WORK = os.path.join(os.environ.get('VERIF_OUT_DIR', VERIF), '.work')   # per-run
 VERIFICATION_FAILURES = [
     ('postcondition not satisfied', 'ensures'),
     ('precondition not satisfied', 'requires'),
+    ('precondition not met', 'requires'),      # built-in obligations, e.g. `index in bounds for this access` on a slice
     ('possible arithmetic underflow/overflow', 'arith'),
     ('possible division by zero', 'arith'),
     ('assertion failed', 'assert'),
@@ -81,6 +82,19 @@ def _closure_baseline():
         except (OSError, ValueError):
             _CB = {}
     return _CB
+
+
+_LB = None
+
+
+def _loop_baseline():
+    global _LB
+    if _LB is None:
+        try:
+            _LB = json.load(open(os.path.join(VERIF, 'baseline', 'loops.json')))
+        except (OSError, ValueError):
+            _LB = {}
+    return _LB
 
 
 def build_externs(g, repo):
@@ -336,6 +350,21 @@ def run_unit(unit, repo='/repo', tier='quick', rlimit=30, seed=None, canaries=Tr
         if fnq in now and now[fnq] > base.get(fnq, 0):
             res.trouble.append('proof did not carry over: %s now goes through %d closure(s) (pinned tree: %d) that Verus has no '
                                'specification for; %s is undecided, not a violation' % (fnq, now[fnq], base.get(fnq, 0), o['obligation']))
+        else:
+            kept.append(o)
+    res.failures = kept
+    # Loop contracts are positional (`//@ loop k`).  A function that now has MORE loops than on the pinned tree
+    # (baseline/loops.json) may carry its invariants on the wrong loop, and the new loop has none: a failed obligation
+    # in such a function is undecided, not a violation.  (Fewer loops: the dropped sections are recorded and the
+    # function's own contract still decides.)
+    lbase = _loop_baseline().get(unit, {})
+    lnow = {f['fn']: f.get('loops', 0) for f in g.functions}
+    kept = []
+    for o in res.failures:
+        fnq = o.get('fn')
+        if fnq in lnow and unit in _loop_baseline() and lnow[fnq] > lbase.get(fnq, 0):
+            res.trouble.append('proof did not carry over: %s now has %d loop(s) (pinned tree: %d), loop contracts are positional; '
+                               '%s is undecided, not a violation' % (fnq, lnow[fnq], lbase.get(fnq, 0), o['obligation']))
         else:
             kept.append(o)
     res.failures = kept
